@@ -56,7 +56,7 @@ def main():
                                        "executable model (ocaml/driver) compared with /repo by harness/*.py"}],
         "checks": checks,
         "not_applicable": na,
-        "notes": "See DESIGN.md (Part II = as built). Known findings: KNOWN_FINDINGS.json (currently none open; ten defects repaired by fix: commits in /repo). Seeded changes and detection: seeded/RESULTS.md.",
+        "notes": "See DESIGN.md (Part II = as built). Known findings: KNOWN_FINDINGS.json (currently none open; eleven defects repaired by fix: commits in /repo). Seeded changes and detection: seeded/RESULTS.md.",
     }
     with open(os.path.join(VERIF, "MANIFEST.json"), "w") as f:
         json.dump(man, f, indent=1)
